@@ -13,8 +13,8 @@ def make_joint(js, s1, s2):
     r_OJ0 = None if js.get("r_OJ0") is None else np.array(js["r_OJ0"], dtype=float)
     A_IJ0 = None if js.get("psi_J") is None else gen._exp(np.array(js["psi_J"], dtype=float))
     xi1, xi2 = js.get("xi1"), js.get("xi2")
-    xi1 = None if xi1 is None else (float(xi1),)
-    xi2 = None if xi2 is None else (float(xi2),)
+    xi1 = None if xi1 is None else float(xi1)
+    xi2 = None if xi2 is None else float(xi2)
     if t == "Spherical":
         if r_OJ0 is None:
             r_OJ0 = np.asarray(s2.r_OP(0.0, s2.q0) if hasattr(s2, "nq") and s2.nq else s1.r_OP(0.0, s1.q0), dtype=float)
@@ -119,7 +119,7 @@ def make_load(ls, body):
     fun = (lambda t_: f0 + f1 * np.sin(w * t_)) if np.any(f1) else f0
     t = ls["type"]
     xi = ls.get("xi")
-    kw = {} if xi is None else {"xi": (float(xi),)}
+    kw = {} if xi is None else {"xi": float(xi)}
     if t in ("Force", "B_Force"):
         cls = Force if t == "Force" else B_Force
         o = cls(fun, body, B_r_CP=np.array(ls.get("B_r_CP", [0, 0, 0]), dtype=float), name=ls.get("name", t), **kw)
